@@ -45,6 +45,8 @@ let rstyle_of = function "z" -> C17_TowardZero | "i" -> C17_TowardInf | "d" -> C
 let ity_of = function
   | "i32" -> { c17_signed = true; c17_width = z_of_int 32 } | "u32" -> { c17_signed = false; c17_width = z_of_int 32 }
   | "i64" -> { c17_signed = true; c17_width = z_of_int 64 } | "u64" -> { c17_signed = false; c17_width = z_of_int 64 }
+  | "i8" -> { c17_signed = true; c17_width = z_of_int 8 } | "u8" -> { c17_signed = false; c17_width = z_of_int 8 }
+  | "i16" -> { c17_signed = true; c17_width = z_of_int 16 } | "u16" -> { c17_signed = false; c17_width = z_of_int 16 }
   | s -> failwith ("ity " ^ s)
 
 let is_fin p e v = is_finite p e v
@@ -73,7 +75,7 @@ let () =
           | None -> "-"
           | Some l ->
             let parts = String.split_on_char ' ' l in
-            if List.length parts <> 2 || not (List.for_all bits6 parts) then "BAD unparsable impl line"
+            if List.length parts <> 3 || not (List.for_all bits6 parts) then "BAD unparsable impl line (or FloatCmpOps::epsilon() does not return what epsilon(e) stored)"
             else begin
               let fin = is_fin p e a && is_fin p e b && is_fin p e eps in
               let chk which (o : string) =
@@ -87,9 +89,11 @@ let () =
                   | Some x when x <> g 0 -> "BAD " ^ which ^ " eq=" ^ b01 (g 0) ^ " contradicts the documented definition evaluated exactly (" ^ verdict_str v ^ ")"
                   | _ -> "ok" end in
               let r1 = chk "function" (List.nth parts 0) in
-              if r1 <> "ok" then r1 else chk "FloatCmpOps" (List.nth parts 1)
+              if r1 <> "ok" then r1 else
+              let r2 = chk "FloatCmpOps" (List.nth parts 1) in
+              if r2 <> "ok" then r2 else chk "FloatCmpOps(default-constructed, epsilon set)" (List.nth parts 2)
             end) in
-        six ^ " " ^ six, orc
+        six ^ " " ^ six ^ " " ^ six, orc
       | "vcmp" ->
         let (p, e, w, _) = fmt_of t.(1) in let s = cstyle_of t.(2) in
         let fb x = c17_of_bits p e w (z_of_hex x) in
@@ -100,7 +104,8 @@ let () =
         let b = List.init m (fun i -> fb t.(6 + n + i)) in
         let r = c17_veq p e s eps a b in
         let sv = b01 r ^ b01 (not r) in
-        let mo = sv ^ " " ^ (if n = m && n >= 1 && n <= 3 then sv else "--") in
+        let v6 = String.concat "" (List.map b01 [r; c17_vne p e s eps a b; c17_vgt p e s eps a b; c17_vlt p e s eps a b; c17_vge p e s eps a b; c17_vle p e s eps a b]) in
+        let mo = v6 ^ " " ^ (if n = m && n = 1 then v6 else if n = m && n >= 2 && n <= 3 then sv else "--") ^ " " ^ v6 in
         let orc = (match il with
           | None -> "-"
           | Some l ->
@@ -114,8 +119,12 @@ let () =
              | None -> "ok"
              | Some x -> let want = b01 x ^ b01 (not x) in
                let parts = String.split_on_char ' ' l in
-               if List.for_all (fun pt -> pt = want || pt = "--") parts && List.length parts = 2 then "ok"
-               else "BAD vector eq is not the conjunction of the component comparisons (expected " ^ want ^ ")")) in
+               let pre pt = pt = "--" || (String.length pt >= 2 && String.sub pt 0 2 = want) in
+               let laws pt = String.length pt <> 6 ||
+                 (let g i = pt.[i] = '1' in g 1 = not (g 0) && g 4 = (g 2 || g 0) && g 5 = (g 3 || g 0) && not (g 2 && g 3) && (not (g 0) || (not (g 2) && not (g 3)))) in
+               if not (List.for_all pre parts && List.length parts = 3) then "BAD vector eq is not the conjunction of the component comparisons (expected " ^ want ^ ")"
+               else if not (List.for_all laws parts) then "BAD vector gt/lt/ge/le violate ne=!eq, ge=gt||eq, le=lt||eq, at most one of lt/eq/gt"
+               else "ok")) in
         mo, orc
       | "round" | "trunc" ->
         let isround = t.(0) = "round" in
@@ -196,6 +205,84 @@ let () =
                         else c17_dy_leb (c17_dy_abs (c17_dy_sub rd ex)) (c17_dy_mul relb (c17_dy_abs ex)) in
               if okv then "ok" else "BAD power result differs from the exact power by more than (|p|+2) ulp/2") in
         hex_of_z hw (c17_to_bits p e w r), orc
+      | "defeps" ->
+        let (p, e, w, hw) = fmt_of t.(1) in
+        let h st = hex_of_z hw (c17_to_bits p e w (c17_default_eps p e st)) in
+        let four st = String.concat " " [h st; h st; h st; h st] in
+        let mo = four C17_RelWeak ^ " " ^ four C17_RelStrong ^ " " ^ four C17_Absolute ^ " " ^ h c17_default_cstyle in
+        mo, (match il with None -> "-" | Some l -> if l = mo then "ok" else "BAD DefaultEpsilon is not 8 * machine epsilon (relative styles) / max(machine epsilon, 1e-6) (absolute) for every value type")
+      | "cmpd" ->
+        let (p, e, w, _) = fmt_of t.(1) in
+        let fb x = c17_of_bits p e w (z_of_hex x) in
+        let eps = fb t.(2) and a = fb t.(3) and b = fb t.(4) in
+        let dc = c17_default_cstyle in
+        let groups = [ (C17_RelWeak, c17_default_eps p e C17_RelWeak); (C17_RelStrong, c17_default_eps p e C17_RelStrong);
+                       (C17_Absolute, c17_default_eps p e C17_Absolute); (dc, c17_default_eps p e dc); (dc, eps); (dc, c17_default_eps p e dc) ] in
+        let six (s, ep) = String.concat "" (List.map b01
+          [c17_eq p e s ep a b; c17_ne p e s ep a b; c17_gt p e s ep a b; c17_lt p e s ep a b; c17_ge p e s ep a b; c17_le p e s ep a b]) in
+        let mo = String.concat " " (List.map six groups) in
+        let orc = (match il with
+          | None -> "-"
+          | Some l ->
+            let parts = String.split_on_char ' ' l in
+            if List.length parts <> 6 || not (List.for_all bits6 parts) then "BAD unparsable impl line" else
+            if not (is_fin p e a && is_fin p e b && is_fin p e eps) then "ok" else
+            let chk (s, ep) (o : string) =
+              let g i = o.[i] = '1' in
+              if not (c17_cmp_laws (c17_flt p e a b) (c17_fgt p e a b) (g 0) (g 1) (g 2) (g 3) (g 4) (g 5)) then false
+              else (match c17_eq_verdict p e s (c17_to_dy p e ep) (c17_to_dy p e a) (c17_to_dy p e b) with Some x -> x = g 0 | None -> true) in
+            if List.for_all2 chk groups parts then "ok"
+            else "BAD a comparison with defaulted epsilon / compare style violates the algebra or the documented definition with the documented default") in
+        mo, orc
+      | "rto" ->
+        let isround = t.(1) = "round" in
+        let (p, e, w, _) = fmt_of t.(2) in let ty = ity_of t.(3) in
+        let s = (if t.(4) = "c" then cstyle_of t.(5) else c17_default_cstyle) in
+        let r = (if t.(4) = "r" then rstyle_of t.(5) else c17_default_rstyle) in
+        let fb x = c17_of_bits p e w (z_of_hex x) in
+        let eps = (if t.(6) = "-" then c17_default_eps p e s else fb t.(6)) and v = fb t.(7) in
+        let res = if isround then c17_round_fix p e r ty s eps v else c17_trunc_fix p e r ty s eps v in
+        let orc = (match il with
+          | None -> "-"
+          | Some l ->
+            if res = C17_UB || not (is_fin p e v && is_fin p e eps) then "ok(undefined)"
+            else (match (try Some (z_of_dec l) with _ -> None) with
+              | None -> "BAD unparsable impl line (or FloatCmpOps<T>() disagrees with the free function)"
+              | Some z ->
+                let dv = c17_to_dy p e v in
+                let ideal = if isround then c17_spec_round_ideal r dv else c17_spec_trunc_ideal r dv in
+                if not (c17_inrange ty ideal) then "ok(unrepresentable)" else
+                let okf = if isround then c17_spec_round_ok else c17_spec_trunc_ok in
+                let fl = c17_dy_floor dv in
+                let other = if ideal = fl then Z.add fl (z_of_int 1) else fl in
+                if okf p e r s (c17_to_dy p e eps) dv z then "ok"
+                else if (not isround) && z = ideal && not (c17_inrange ty other) then "ok(unrepresentable)"
+                else if isround && (z = fl || z = Z.add fl (z_of_int 1))
+                        && not (c17_inrange ty (if z = fl then Z.add fl (z_of_int 1) else fl)) then "ok(unrepresentable)"
+                else "BAD result " ^ l ^ " is not the documented " ^ t.(1) ^ " with the defaulted styles / epsilon (exact: " ^ dec_of_z ideal ^ ")")) in
+        ires_str res, orc
+      | "icfact" ->
+        let ty = ity_of "i32" in let n = z_of_dec t.(1) in
+        let r = ires_str (c17_factorial ty n) in
+        let spec = dec_of_z (c17_spec_factorial n) in
+        r ^ " " ^ r, (match il with None -> "-" | Some l -> if l = spec ^ " " ^ spec then "ok" else "BAD factorial(integral_constant) / Factorial<n>::factorial is not n!")
+      | "icbinom" ->
+        let ty = ity_of "i32" in let n = z_of_dec t.(1) and k = z_of_dec t.(2) in
+        let r = ires_str (c17_binomial_fix ty n k) in
+        let spec = dec_of_z (c17_spec_binomial_fast n k) in
+        r, (match il with None -> "-" | Some l -> if l = spec then "ok" else "BAD binomial(integral_constant, integral_constant) is not C(n,k)")
+      | "icls" ->
+        "0010", (match il with None -> "-" | Some l -> if l = "0010" then "ok" else "BAD an integer is finite, not NaN, not infinite, and ordered")
+      | "ipowx" ->
+        let ty = ity_of t.(1) in let a = z_of_dec t.(3) and b = z_of_dec t.(4) in
+        let res = c17_ipower ty a b in
+        let orc = (match il with
+          | None -> "-"
+          | Some l -> if Z.ltb b Z0 then "ok(no-spec)" else
+            let x = c17_spec_power a b in
+            let obs = (try C17_Val (z_of_dec l) with _ -> C17_UB) in
+            if c17_spec_int_ok ty x obs then "ok" else "BAD exact value " ^ dec_of_z x ^ " is representable but the result is " ^ l) in
+        ires_str res, orc
       | "fsign" ->
         let (p, e, w, _) = fmt_of t.(1) in
         let v = c17_of_bits p e w (z_of_hex t.(2)) in
@@ -204,6 +291,7 @@ let () =
       | "cls" ->
         let (p, e, w, _) = fmt_of t.(1) in
         let kind = t.(2) in let n = int_of_string t.(3) in
+        let n = if kind = "vc" then 2 * n else n in
         let vs = List.init n (fun i -> c17_of_bits p e w (z_of_hex t.(4 + i))) in
         let r = (match kind with
           | "s" -> let v = List.hd vs in [c17_isnan p e v; c17_isinf p e v; c17_isfinite p e v]
